@@ -642,8 +642,8 @@ def run(ctx):
     ctx.rule = ("(1) pipe level: every start state reachable through the API (8: p1/p2/forever) x call combinations "
                 "(stdout-half thread, stderr-half thread, set_forever thread; one or two calls each), ALL line-level "
                 "interleavings of one stdout-half call against one stderr-half call, preemption-bounded otherwise "
-                "(against set_forever: 1 quick / 3 thorough preemptions; three threads or two calls each: 1 / 2, "
-                "capped at 25 (quick) / 250 (thorough) schedules per setup) on real "
+                "(against set_forever: 1 quick / 2 thorough preemptions; three threads or two calls each: 1 / 2, "
+                "capped at 25 (quick) / 100 (thorough) schedules per setup) on real "
                 "PosixPipe/OrPipe "
                 "objects; (2) real Channel + stub transport, seeded random operation sequences run sequentially, "
                 "compared with the model after every operation; (3) real Channel, 2-3 threads, preemption-bounded "
@@ -679,10 +679,10 @@ def run(ctx):
             if simple and 4 not in (calls[0] + calls[1]):
                 mp = None                       # stdout-half call against stderr-half call: all interleavings
             elif simple:
-                mp = 3 if ctx.thorough else 1   # against set_forever (2002 interleavings unbounded)
+                mp = 2 if ctx.thorough else 1   # against set_forever (2002 interleavings unbounded)
             else:
                 mp = 2 if ctx.thorough else 1
-            limit = (1500 if simple else 250) if ctx.thorough else (600 if simple else 25)
+            limit = (1500 if simple else 100) if ctx.thorough else (600 if simple else 25)
             complete = check_pipe_setup(ctx, start, calls, mp, limit, cases, stats)
             all_complete = all_complete and complete
         ctx.log("pipe level: %d schedules on the real objects (enumeration complete within bounds: %s)" % (
@@ -713,7 +713,7 @@ def run(ctx):
 
         # ---- 2. channel level, sequential ----------------------------------------------------
         scases = []
-        for j in range(2000 if ctx.thorough else 300):
+        for j in range(1200 if ctx.thorough else 300):
             nops = rng.randrange(1, 9)
             seed = rng.getrandbits(48)
             import random as _random
@@ -745,8 +745,8 @@ def run(ctx):
 
         # ---- 3. channel level, concurrent (oracle) --------------------------------------------
         nrun = 0
-        for pre, progs in chan_setups(rng, 30 if ctx.thorough else 6):
-            gen = explore(lambda: ChanEnv(pre, progs), 2, 300 if ctx.thorough else 60)
+        for pre, progs in chan_setups(rng, 15 if ctx.thorough else 6):
+            gen = explore(lambda: ChanEnv(pre, progs), 2, 150 if ctx.thorough else 60)
             for choices, obs in gen:
                 nrun += 1
                 case = {"pre": pre, "progs": progs, "schedule": choices}
